@@ -1,13 +1,221 @@
 package main
 
-// Global-invariant mode (inbox state word): filled in later.
+// Global-invariant ("protocol") mode: see ProtocolSpec.
 
-import "golang.org/x/tools/go/ssa"
+import (
+	"fmt"
+	"go/types"
+	"strings"
 
-type GInv struct{}
+	"golang.org/x/tools/go/ssa"
+)
+
+type GInv struct {
+	spec *ProtocolSpec
+	obj  Value // the shared structure (receiver of the method under verification)
+}
+
+// protocolFor finds the protocol of fn's receiver type, if any.
+func (x *Exec) protocolFor(c *Contract, fn *ssa.Function, args []Value) *GInv {
+	if fn.Signature.Recv() == nil || len(args) == 0 {
+		return nil
+	}
+	pt, ok := fn.Signature.Recv().Type().Underlying().(*types.Pointer)
+	if !ok {
+		return nil
+	}
+	tn := baseTypeName(pt.Elem())
+	for _, cf := range x.w.contracts {
+		for _, ps := range cf.Protocols {
+			if ps.Struct == tn && ps.Pkg == c.Pkg {
+				return &GInv{spec: ps, obj: args[0]}
+			}
+		}
+	}
+	return nil
+}
+
+func (x *Exec) isStep(anchor string) bool {
+	if x.ginv == nil {
+		return false
+	}
+	base := anchor
+	if i := strings.LastIndex(anchor, "#"); i >= 0 {
+		base = anchor[:i]
+	}
+	for _, s := range x.ginv.spec.Steps {
+		if strings.TrimSpace(s) == base {
+			return true
+		}
+	}
+	return false
+}
+
+func (x *Exec) ginvEnv(st *State, fi int) *Env {
+	env := x.envFor(st, fi, false)
+	env.fi = -1
+	env.vars = map[string]Value{x.ginv.spec.Recv: x.ginv.obj}
+	env.pkg = x.w.typesPkg(x.ginv.spec.Pkg)
+	return env
+}
+
+// ginvBefore: other threads may have run: forget the shared state, keep what
+// the invariant and this thread's stable knowledge say about it.
+func (x *Exec) ginvBefore(st *State, fi int, anchor string) {
+	g := x.ginv
+	for _, item := range g.spec.Shared {
+		item = strings.TrimSpace(item)
+		if gv, ok := x.ghostVars[item]; ok {
+			x.recHeap("G$" + item)
+			st.heap["G$"+item] = x.decls.Fresh("shared.G$"+item, gv.Sort)
+			if st.lockHavoc == nil {
+				st.lockHavoc = map[string][]Term{}
+			}
+			if _, ok := st.lockHavoc["G$"+item]; !ok {
+				st.lockHavoc["G$"+item] = []Term{}
+			}
+			continue
+		}
+		env := x.ginvEnv(st, fi)
+		mods := map[string][]Term{}
+		x.resolveModifies(st, env, item, mods, "shared state of "+g.spec.Struct)
+		for _, name := range sortedKeys(mods) {
+			sortS := x.heapSorts[name]
+			x.recHeap(name)
+			cur := x.heapGet(st, name, sortS)
+			for _, o := range mods[name] {
+				fv := x.decls.Fresh("shared."+name, arrayElemSort(sortS))
+				cur = Store(cur, o, fv)
+				if st.lockHavoc == nil {
+					st.lockHavoc = map[string][]Term{}
+				}
+				st.lockHavoc[name] = append(st.lockHavoc[name], o)
+			}
+			x.heapSet(st, name, cur)
+		}
+	}
+	x.ginvAssume(st, fi)
+	if x.muted == 0 && fi == 0 {
+		x.reach(st, "before step "+anchor)
+	}
+}
+
+func (x *Exec) ginvAssume(st *State, fi int) {
+	g := x.ginv
+	for _, cl := range append(append([]*Clause(nil), g.spec.Inv...), g.spec.Stable...) {
+		env := x.ginvEnv(st, fi)
+		if t, ok := x.evalClause(st, env, cl); ok {
+			st.assume(t)
+		}
+	}
+}
+
+// ginvAfter: the step (with its ghost updates) must re-establish the invariant.
+func (x *Exec) ginvAfter(st *State, fi int, anchor string, site ssa.Instruction) {
+	g := x.ginv
+	for _, cl := range g.spec.Inv {
+		env := x.ginvEnv(st, fi)
+		if t, ok := x.evalClause(st, env, cl); ok {
+			x.oblige(st, "ginv", cl.Label, anchor, t, site.Pos())
+		}
+	}
+	// the thread's own stable knowledge must hold of the state it just produced
+	for _, cl := range g.spec.Stable {
+		env := x.ginvEnv(st, fi)
+		if t, ok := x.evalClause(st, env, cl); ok {
+			x.oblige(st, "stable", cl.Label, anchor, t, site.Pos())
+		}
+	}
+}
 
 func (x *Exec) ginvStep(st *State, fi int, site ssa.Instruction, anchor string, body func() Value, k func(*State, Value)) {
 	k(st, body())
 }
 
 func (x *Exec) quickSat(st *State) bool { return true }
+
+// closedWorld: the shared fields of a protocol structure are touched only by
+// the structure's own methods and its constructor New<Struct> (a syntactic scan
+// of the package's SSA; test files are not loaded). One pre-decided obligation
+// per field.
+func closedWorld(w *World, rel string, ps *ProtocolSpec, prop string) []*Obligation {
+	pkg := w.pkgs[rel]
+	if pkg == nil {
+		return nil
+	}
+	fields := map[string]bool{}
+	for _, sh := range ps.Shared {
+		sh = strings.TrimSpace(sh)
+		if strings.HasPrefix(sh, ps.Recv+".") && strings.Count(sh, ".") == 1 {
+			fields[strings.TrimPrefix(sh, ps.Recv+".")] = true
+		}
+	}
+	offenders := map[string][]string{}
+	var visit func(fn *ssa.Function)
+	visit = func(fn *ssa.Function) {
+		own := false
+		root := fn
+		for root.Parent() != nil {
+			root = root.Parent()
+		}
+		if root.Signature.Recv() != nil {
+			if pt, ok := root.Signature.Recv().Type().Underlying().(*types.Pointer); ok && baseTypeName(pt.Elem()) == ps.Struct {
+				own = true
+			}
+		}
+		if root.Name() == "New"+ps.Struct {
+			own = true
+		}
+		for _, b := range fn.Blocks {
+			for _, in := range b.Instrs {
+				fa, ok := in.(*ssa.FieldAddr)
+				if !ok {
+					continue
+				}
+				pt, ok := fa.X.Type().Underlying().(*types.Pointer)
+				if !ok || baseTypeName(pt.Elem()) != ps.Struct {
+					continue
+				}
+				st, ok := pt.Elem().Underlying().(*types.Struct)
+				if !ok {
+					continue
+				}
+				name := st.Field(fa.Field).Name()
+				if fields[name] && !own {
+					offenders[name] = append(offenders[name], fn.String())
+				}
+			}
+		}
+		for _, a := range fn.AnonFuncs {
+			visit(a)
+		}
+	}
+	for _, m := range pkg.Members {
+		switch t := m.(type) {
+		case *ssa.Function:
+			visit(t)
+		case *ssa.Type:
+			for _, typ := range []types.Type{t.Type(), types.NewPointer(t.Type())} {
+				ms := w.prog.MethodSets.MethodSet(typ)
+				for i := 0; i < ms.Len(); i++ {
+					if fn := w.prog.MethodValue(ms.At(i)); fn != nil && fn.Pkg == pkg {
+						visit(fn)
+					}
+				}
+			}
+		}
+	}
+	var out []*Obligation
+	for _, f := range sortedKeys(fields) {
+		ob := &Obligation{Name: fmt.Sprintf("%s.closed-world[%s.%s is accessed only by methods of %s and New%s]", rel, ps.Struct, f, ps.Struct, ps.Struct),
+			Func: rel + ".closed-world", Kind: "closedworld", Label: prop + ".closed-world." + f, Expect: "unsat"}
+		if len(offenders[f]) == 0 {
+			ob.Result = SolverResult{Status: "unsat", Solver: "ssa-scan"}
+		} else {
+			ob.Result = SolverResult{Status: "sat", Solver: "ssa-scan", Output: "accessed by: " + strings.Join(offenders[f], ", ")}
+		}
+		out = append(out, ob)
+	}
+	return out
+}
+
